@@ -132,7 +132,7 @@
   (ite (= (chAt s k) 92) (ite (< (+ k 1) (str.len s)) (str.++ "\u{5c}" (str.at s (+ k 1))) "\u{5c}")
        (str.at s k)))))))
 ; the whole translation
-(define-fun trSpec ((s String)) String (str.++ "^" (trPrefix s (str.len s)) "$"))
+(define-fun trSpec ((s String)) String (str.++ "(?s)^" (trPrefix s (str.len s)) "$"))
 
 ; ---- one line of a .terraformignore file (property C03) ----
 (define-fun lineTrim ((l String)) String (TrimSpace l))
